@@ -276,6 +276,8 @@ pub fn solve<F: Function>(
                 .map_err(SingularMatrix)?;
 
             let err = solver.get_err(&cur, delta.as_slice());
+            #[cfg(fidget_verif)]
+            fidget_core::verif::emit("lm_try", &[("iter", i as i64)]);
             if err > prev_err {
                 // Keep going in this inner loop, taking smaller steps
                 damping *= 1.5;
